@@ -9,5 +9,6 @@ CONSTANTS
  FixNifty = TRUE
  AtomicAdopt = TRUE
  RefreshExpected = FALSE
+ ReleaseLast = TRUE
 INVARIANT ListComplete
 CHECK_DEADLOCK FALSE
